@@ -643,7 +643,7 @@ fn types(thorough: bool) -> Vec<Ty> {
             ch("typical", "abcd", 4),
             ch("short", "ab", 4),
             ch("empty", "", 4),
-            ch("multibyte-4", "é日😀ß", 4),
+            ch("multibyte-4", "é日😀ß", 4).err_ok(), // README: CHAR(n) is stored in n bytes — a 4-character string of 11 bytes may be rejected
             ch("quote", "i's", 4),
             ch("over-length", "abcdef", 4).also(OV::Text("abcd".into())).err_ok(),
         ],
@@ -666,7 +666,7 @@ fn types(thorough: bool) -> Vec<Ty> {
             Val::both("typical", "'hello'", OV::Text("hello".into())),
             Val::both("empty", "''", OV::Text(String::new())),
             Val::both("exact-10", "'abcdefghij'", OV::Text("abcdefghij".into())),
-            Val::both("multibyte-10", "'é日😀ßé日😀ßé日'", OV::Text("é日😀ßé日😀ßé日".into())),
+            Val::both("multibyte-10", "'é日😀ßé日😀ßé日'", OV::Text("é日😀ßé日😀ßé日".into())).err_ok(), // "max n": characters or bytes is not documented
             Val::both("over-length", "'abcdefghijk'", OV::Text("abcdefghijk".into())).also(OV::Text("abcdefghij".into())).err_ok(),
         ],
         0,
@@ -1158,6 +1158,9 @@ fn run_unit(scratch: &std::path::Path, u: &Unit, only: &BTreeSet<usize>, name: &
             _ => Some(("error", "SELECT * returned no row set".to_string())),
         };
         let failed_before: BTreeSet<usize> = r.failures.iter().map(|f| f.case).collect();
+        // a failing full scan is blamed on a row only when it is the only row of the table
+        let blame_rows = live.len() <= 1;
+        let nfail_before_reads = r.failures.len();
         for (&ci, &id) in live {
             if failed_before.contains(&ci) {
                 continue; // stop at divergence: already reported for the earlier read
@@ -1203,7 +1206,7 @@ fn run_unit(scratch: &std::path::Path, u: &Unit, only: &BTreeSet<usize>, name: &
                     None => Some(("row-missing".into(), "SELECT * FROM t => row absent".into())),
                     Some(row) => check_row(row).map(|(w, o)| (w, format!("SELECT * FROM t => v={o}"))),
                 },
-                (None, Some((w, o))) => Some((w.to_string(), o.clone())),
+                (None, Some((w, o))) if blame_rows => Some((w.to_string(), o.clone())),
                 _ => None,
             };
             match (&lookup, &scanned) {
@@ -1213,6 +1216,7 @@ fn run_unit(scratch: &std::path::Path, u: &Unit, only: &BTreeSet<usize>, name: &
                     r.failures.push(Failure { case: ci, when, what: w1.clone(), expected: expected.clone(), observed: o1.clone() });
                     r.failures.push(Failure { case: ci, when, what: format!("scan-{w2}"), expected: expected.clone(), observed: o2.clone() });
                 }
+                (Some((w1, o1)), None) if scan_problem.is_some() => r.failures.push(Failure { case: ci, when, what: w1.clone(), expected: expected.clone(), observed: o1.clone() }),
                 (Some((w1, o1)), None) => r.failures.push(Failure { case: ci, when, what: format!("lookup-{w1}"), expected: expected.clone(), observed: format!("{o1} (the full scan returns the right value)") }),
                 (None, Some((w2, o2))) => r.failures.push(Failure { case: ci, when, what: format!("scan-{w2}"), expected: expected.clone(), observed: format!("{o2} (the lookup by id returns the right value)") }),
             }
@@ -1234,6 +1238,13 @@ fn run_unit(scratch: &std::path::Path, u: &Unit, only: &BTreeSet<usize>, name: &
                 if let Some((w, o)) = bad {
                     r.failures.push(Failure { case: ci, when, what: w, expected: format!("v={}", show_exp(&to.exp)), observed: o });
                 }
+            }
+        }
+        if let (Some((w, o)), false) = (&scan_problem, blame_rows) {
+            let _ = nfail_before_reads;
+            // attributed to the batch only when no row of this table has been blamed for anything
+            if !r.failures.iter().any(|f| live.contains_key(&f.case)) && !separate {
+                r.proj.push((when, format!("scan-{w}"), "SELECT * FROM t succeeds (every row of the table can be read by id)".into(), o.clone()));
             }
         }
         // 4. unfiltered single-column projection == v column of SELECT * (position-wise)
@@ -1286,6 +1297,7 @@ fn case_json(u: &Unit, ci: usize) -> Value {
 }
 fn batch_json(u: &Unit, only: &BTreeSet<usize>) -> Value {
     json!({"mode": "batch", "type": u.ty.sig, "pk": u.pk, "path": path_name(u.param), "op": if u.update { "update" } else { "insert" },
+           "separate_tables": u.update,
            "cases": only.iter().map(|ci| json!([u.cases[*ci].0.map(|f| u.ty.vals[f].class.clone()), u.ty.vals[u.cases[*ci].1].class])).collect::<Vec<_>>()})
 }
 
@@ -1334,6 +1346,264 @@ fn build_cases(ty: &Ty, param: bool, update: bool, thorough: bool) -> Vec<(Optio
     cases
 }
 
+// ---------------------------------------------------------------- multi-row histories (TOAST chunk keys)
+/// Two rows in one table: INSERT row 1, INSERT row 2, then up to two UPDATEs (row, new size); every value is
+/// distinct.  After every statement both rows are read by id; the history stops at the first divergence.
+#[derive(Clone, Debug, PartialEq, Eq, Hash)]
+struct Hist {
+    /// how the PRIMARY KEY values relate to the internal row ids the two INSERTs will get (TurDB numbers rows
+    /// per database, from 1): 0 "own" = id equals the row's own row id, 1 "swapped" = id equals the OTHER
+    /// row's row id, 2 "disjoint" = ids far away from any row id
+    align: u8,
+    ins: [usize; 2],
+    upd: Vec<(usize, usize)>,
+}
+fn align_name(a: u8) -> &'static str {
+    match a {
+        0 => "own",
+        1 => "swapped",
+        _ => "disjoint",
+    }
+}
+fn multi_sizes(thorough: bool) -> Vec<usize> {
+    if thorough {
+        vec![10, 1000, 1001, 4001, 8001]
+    } else {
+        vec![10, 1001, 4001]
+    }
+}
+fn multi_hists(thorough: bool) -> Vec<Hist> {
+    let sz = multi_sizes(thorough);
+    let mut upds: Vec<Vec<(usize, usize)>> = vec![vec![]];
+    for r in 0..2 {
+        for &s in &sz {
+            upds.push(vec![(r, s)]);
+        }
+    }
+    for r1 in 0..2 {
+        for &s1 in &sz {
+            for r2 in 0..2 {
+                for &s2 in &sz {
+                    upds.push(vec![(r1, s1), (r2, s2)]);
+                }
+            }
+        }
+    }
+    let mut v = Vec::new();
+    // shortest histories first
+    for u in &upds {
+        for align in 0..3u8 {
+            for &a in &sz {
+                for &b in &sz {
+                    v.push(Hist { align, ins: [a, b], upd: u.clone() });
+                }
+            }
+        }
+    }
+    v
+}
+fn multi_value(blob: bool, n: usize, seed: u64) -> (String, OV) {
+    if blob {
+        let b = bin_of(n, seed);
+        (sql_blob(&b), OV::Blob(b))
+    } else {
+        let t = ascii_of(n, seed);
+        (sql_text(&t), OV::Text(t))
+    }
+}
+/// signature component: how ids relate to row ids, and the LAST executed step (the one that diverged):
+/// i2 = second INSERT, u1 = first UPDATE, u2-same-row / u2-other-row = second UPDATE; the whole history is in the case
+fn hist_pattern(h: &Hist, pk: bool) -> String {
+    let rel = if pk { format!("ids-{}", align_name(h.align)) } else { "nopk".to_string() };
+    let last = match h.upd.len() {
+        0 => format!("i2:{}", szc_of(h.ins[1])),
+        1 => format!("u1:{}", szc_of(h.upd[0].1)),
+        _ => format!("u2-{}:{}", if h.upd[0].0 == h.upd[1].0 { "same-row" } else { "other-row" }, szc_of(h.upd[1].1)),
+    };
+    format!("multi[{rel};{last}]")
+}
+struct MultiUnit {
+    tysig: &'static str,
+    ddl: &'static str,
+    blob: bool,
+    pk: bool,
+    param: bool,
+    hists: Vec<Hist>,
+}
+fn multi_case_json(m: &MultiUnit, h: &Hist, steps: usize, pad: usize) -> Value {
+    json!({"mode": "multi", "type": m.tysig, "pk": m.pk, "path": path_name(m.param), "align": h.align, "pad_inserts_before": pad, "ins": h.ins, "upd": h.upd.iter().take(steps.saturating_sub(2)).map(|(r, s)| json!([r, s])).collect::<Vec<_>>(),
+           "meaning": "pad_inserts_before INSERTs into another table advance the database-wide row-id counter; CREATE TABLE h (id INT [PRIMARY KEY], v <type>, w INT); INSERT row A and row B with values of ins[0], ins[1] bytes, ids chosen relative to their internal row ids per align (0 own, 1 swapped, 2 disjoint); then UPDATE h SET v = <value of s bytes> WHERE id = <id of row r> for every [r, s] of upd"})
+}
+/// run the histories of one unit in one database (one table per history); returns violations as (hist idx, steps executed, sig, expected, observed)
+fn run_multi(scratch: &std::path::Path, m: &MultiUnit, name: &str, pad: usize) -> Vec<(usize, usize, usize, String, String, String)> {
+    let mut out = Vec::new();
+    let mut t = match TestDb::create(scratch, name) {
+        Ok(t) => t,
+        Err(e) => {
+            out.push((0, 0, 0, format!("C11/{}/-/{}/multi/now/setup-error", m.tysig, path_name(m.param)), "database can be created".into(), e));
+            return out;
+        }
+    };
+    // INSERT attempts so far in this database: the next internal row id is attempts + 1
+    let mut attempts = 0usize;
+    if pad > 0 {
+        let _ = run(t.db(), "CREATE TABLE pad (id INT)", None);
+        for i in 0..pad {
+            let _ = run(t.db(), &format!("INSERT INTO pad VALUES ({i})"), None);
+            attempts += 1;
+        }
+    }
+    // model: per history the expected value of both rows
+    let mut alive: Vec<(usize, usize, [OV; 2], [usize; 2], [usize; 2])> = Vec::new();
+    let check = |db: &Database, table: &str, model: &[OV; 2], sizes: &[usize; 2], ids: &[usize; 2], written: Option<usize>| -> Option<(String, String, String, String)> {
+        for row in 0..2 {
+            let id = ids[row];
+            let q = format!("SELECT * FROM {table} WHERE id = {id}");
+            let prefix = match written {
+                Some(w) if w == row => "",
+                Some(_) => "other-row-",
+                None => "",
+            };
+            let cls = szc_of(sizes[row]).to_string();
+            let exp = format!("row {id} = {}", show(&model[row]));
+            let bad = match run(db, &q, None) {
+                Out::Rows(rows) => {
+                    if rows.is_empty() {
+                        Some(("row-missing".to_string(), format!("{q} => no row")))
+                    } else if rows.len() > 1 {
+                        Some(("row-duplicated".to_string(), format!("{q} => {} rows", rows.len())))
+                    } else if rows[0].len() != 3 {
+                        Some(("value-changed".to_string(), format!("{q} => {} columns", rows[0].len())))
+                    } else if let Some(w) = judge(&[Exp::V(model[row].clone())], &rows[0][1]) {
+                        Some((w.to_string(), format!("{q} => v={}", show(&rows[0][1]))))
+                    } else if !ov_eq(&rows[0][0], &OV::Int(id as i64)) || !ov_eq(&rows[0][2], &OV::Int(id as i64 * 7 + 1)) {
+                        Some(("neighbor-changed".to_string(), format!("{q} => id={} w={}", show(&rows[0][0]), show(&rows[0][2]))))
+                    } else {
+                        None
+                    }
+                }
+                Out::Err(e) => Some(("error".to_string(), format!("{q} => Err({})", vcore::util::clip(&e, 300)))),
+                Out::Panic(p) => Some(("panic".to_string(), format!("{q} => PANIC({})", vcore::util::clip(&p, 300)))),
+                _ => Some(("error".to_string(), format!("{q} => no row set"))),
+            };
+            if let Some((w, o)) = bad {
+                return Some((cls, format!("{prefix}{w}"), exp, o));
+            }
+        }
+        None
+    };
+    for (hi, h) in m.hists.iter().enumerate() {
+        let table = format!("h{hi}");
+        let ddl = format!("CREATE TABLE {table} (id INT{}, v {}, w INT)", if m.pk { " PRIMARY KEY" } else { "" }, m.ddl);
+        if let Out::Err(e) | Out::Panic(e) = run(t.db(), &ddl, None) {
+            out.push((hi, 0, attempts, format!("C11/{}/-/{}/multi/now/setup-error", m.tysig, path_name(m.param)), "table can be created".into(), format!("{ddl}: {e}")));
+            return out;
+        }
+        let pad_here = attempts;
+        let rid = [attempts + 1, attempts + 2];
+        let ids: [usize; 2] = match h.align {
+            0 => rid,
+            1 => [rid[1], rid[0]],
+            _ => [rid[0] + 500_000, rid[1] + 500_000],
+        };
+        let mut model: [OV; 2] = [OV::Null, OV::Null];
+        let mut sizes = h.ins;
+        let mut steps = 0usize;
+        let mut diverged = false;
+        let pattern = |steps: usize| hist_pattern(&Hist { align: h.align, ins: h.ins, upd: h.upd.iter().take(steps.saturating_sub(2)).cloned().collect() }, m.pk);
+        // step list: (is_update, row, size)
+        let mut ops: Vec<(bool, usize, usize)> = vec![(false, 0, h.ins[0]), (false, 1, h.ins[1])];
+        ops.extend(h.upd.iter().map(|(r, s)| (true, *r, *s)));
+        for (k, (upd, row, n)) in ops.iter().enumerate() {
+            let (lit, val) = multi_value(m.blob, *n, (hi * 16 + k) as u64 + 100);
+            let id = ids[*row];
+            if !*upd {
+                attempts += 1;
+            }
+            let sql_p;
+            let res = if *upd {
+                if m.param {
+                    sql_p = format!("UPDATE {table} SET v = ? WHERE id = {id}");
+                    run(t.db(), &sql_p, Some(&[val.clone()]))
+                } else {
+                    sql_p = format!("UPDATE {table} SET v = <{n}-byte literal> WHERE id = {id}");
+                    run(t.db(), &format!("UPDATE {table} SET v = {lit} WHERE id = {id}"), None)
+                }
+            } else if m.param {
+                sql_p = format!("INSERT INTO {table} VALUES ({id}, ?, {})", id * 7 + 1);
+                run(t.db(), &sql_p, Some(&[val.clone()]))
+            } else {
+                sql_p = format!("INSERT INTO {table} VALUES ({id}, <{n}-byte literal>, {})", id * 7 + 1);
+                run(t.db(), &format!("INSERT INTO {table} VALUES ({id}, {lit}, {})", id * 7 + 1), None)
+            };
+            steps = k + 1;
+            let wrote = match res {
+                Out::Aff(1) => None,
+                Out::Aff(n) => Some(("error".to_string(), format!("{sql_p} => {n} rows affected"))),
+                Out::Err(e) => Some(("error".to_string(), format!("{sql_p} => Err({})", vcore::util::clip(&e, 300)))),
+                Out::Panic(p) => Some(("panic".to_string(), format!("{sql_p} => PANIC({})", vcore::util::clip(&p, 300)))),
+                _ => Some(("error".to_string(), format!("{sql_p} => unexpected result"))),
+            };
+            if let Some((w, o)) = wrote {
+                out.push((hi, steps, pad_here, format!("C11/{}/{}/{}/{}/now/{}", m.tysig, szc_of(*n), path_name(m.param), pattern(steps), w), format!("statement succeeds; row {id} = {}", show(&val)), o));
+                diverged = true;
+                break;
+            }
+            model[*row] = val;
+            sizes[*row] = *n;
+            if k >= 1 {
+                if let Some((cls, w, e, o)) = check(t.db(), &table, &model, &sizes, &ids, Some(*row)) {
+                    out.push((hi, steps, pad_here, format!("C11/{}/{}/{}/{}/now/{}", m.tysig, cls, path_name(m.param), pattern(steps), w), e, o));
+                    diverged = true;
+                    break;
+                }
+            }
+        }
+        if !diverged {
+            alive.push((hi, pad_here, model, sizes, ids));
+        }
+        // an INSERT that was never attempted (history cut short) still has to keep later positions stable
+        let done_inserts = ops.iter().take(steps).filter(|o| !o.0).count();
+        for i in done_inserts..2 {
+            let _ = run(t.db(), &format!("INSERT INTO {table} VALUES ({}, NULL, 0)", 900_000 + i), None);
+            attempts += 1;
+        }
+        let _ = steps;
+    }
+    match t.reopen() {
+        Err(e) => out.push((0, 0, 0, format!("C11/{}/-/{}/multi/reopen/{}", m.tysig, path_name(m.param), if e.starts_with("PANIC") { "panic" } else { "error" }), "database reopens".into(), e)),
+        Ok(()) => {
+            for (hi, pad_here, model, sizes, ids) in &alive {
+                let h = &m.hists[*hi];
+                if let Some((cls, w, e, o)) = check(t.db(), &format!("h{hi}"), model, sizes, ids, None) {
+                    out.push((*hi, 2 + h.upd.len(), *pad_here, format!("C11/{}/{}/{}/{}/reopen/{}", m.tysig, cls, path_name(m.param), hist_pattern(h, m.pk), w), e, o));
+                }
+            }
+        }
+    }
+    out
+}
+fn multi_units(thorough: bool) -> Vec<(String, MultiUnit)> {
+    let all_hists = multi_hists(thorough);
+    let mut v = Vec::new();
+    let mut tys: Vec<(&'static str, &'static str, bool, Vec<bool>)> = vec![("text", "TEXT", false, vec![false, true]), ("blob", "BLOB", true, vec![true])];
+    if thorough {
+        tys = vec![("text", "TEXT", false, vec![false, true]), ("blob", "BLOB", true, vec![false, true]), ("varchar(30000)", "VARCHAR(30000)", false, vec![true])];
+    }
+    for (sig, ddl, blob, paths) in tys {
+        for pk in [true, false] {
+            for &param in &paths {
+                // without a PRIMARY KEY the id values play no role for the chunk keys: one alignment only
+                let hists: Vec<Hist> = all_hists.iter().filter(|h| if pk { thorough || h.align < 2 } else { h.align == 0 }).cloned().collect();
+                for (ci, chunk) in hists.chunks(130).enumerate() {
+                    v.push((format!("multi_{}_{}_{}_{}", sig.replace(['(', ')'], "_"), if pk { "pk" } else { "nopk" }, path_name(param), ci), MultiUnit { tysig: sig, ddl, blob, pk, param, hists: chunk.to_vec() }));
+                }
+            }
+        }
+    }
+    v
+}
+
 struct C11;
 
 fn explore_unit(ctx: &Ctx, rep: &mut Reporter, u: &Unit, uname: &str, seen_sig: &mut BTreeMap<String, u32>) {
@@ -1342,7 +1612,7 @@ fn explore_unit(ctx: &Ctx, rep: &mut Reporter, u: &Unit, uname: &str, seen_sig: 
     let mut removed: Vec<Failure> = Vec::new();
     let mut reruns = 0u64;
     let res = loop {
-        let r = run_unit(&ctx.scratch, u, &only, uname, false);
+        let r = run_unit(&ctx.scratch, u, &only, uname, u.update);
         if let Some(e) = &r.setup_err {
             rep.violation("C11", "setup", &format!("C11/{}/-/{}/{}/now/setup-error", u.ty.sig, path_name(u.param), if u.update { "update" } else { "insert" }), || batch_json(u, &only), "table of this column type can be created", e);
             return;
@@ -1388,7 +1658,7 @@ fn explore_unit(ctx: &Ctx, rep: &mut Reporter, u: &Unit, uname: &str, seen_sig: 
     rep.count("cases_with_violation", failed_cases.len() as u64);
     // every failing case (except panics, which already got a batch of their own) is re-executed in a table
     // of its own inside ONE fresh database
-    let iso_cases: BTreeSet<usize> = failures.iter().filter(|f| f.what != "panic").map(|f| f.case).take(400).collect();
+    let iso_cases: BTreeSet<usize> = if u.update { BTreeSet::new() } else { failures.iter().filter(|f| f.what != "panic").map(|f| f.case).take(400).collect() };
     let mut iso_sigs: BTreeSet<String> = BTreeSet::new();
     if !iso_cases.is_empty() {
         let mut todo = iso_cases.clone();
@@ -1422,7 +1692,7 @@ fn explore_unit(ctx: &Ctx, rep: &mut Reporter, u: &Unit, uname: &str, seen_sig: 
         rep.count("unfiltered_projection_batches_wrong", 1);
         rep.violation("C11", "projection", &sig, || batch_json(u, &only), e, o);
     }
-    rep.count("unfiltered_projection_batches_checked", 2);
+    rep.count("unfiltered_projection_batches_checked", if u.update { 0 } else { 2 });
 }
 
 fn units<'a>(tys: &'a [Ty], thorough: bool) -> Vec<(String, Unit<'a>)> {
@@ -1506,12 +1776,59 @@ impl Check for C11 {
                 rep.sample(|| batch_json(u, &(0..u.cases.len().min(4)).collect()));
             }
         }
+        // multi-row histories
+        let mus = multi_units(thorough);
+        rep.bound("multi_row_histories", json!({"sizes": multi_sizes(thorough), "histories_per_table_kind": multi_hists(thorough).len(), "databases": mus.len()}));
+        for (i, (name, m)) in mus.iter().enumerate() {
+            if !ctx.mine((us.len() + i) as u64) {
+                continue;
+            }
+            if let Some(o) = only_ty {
+                if m.tysig != o && o != "multi" {
+                    continue;
+                }
+            }
+            if ctx.expired() {
+                rep.capped("deadline before all multi-row batches ran");
+                return;
+            }
+            rep.begin_case(name);
+            let viol = run_multi(&ctx.scratch, m, name, 0);
+            let n = m.hists.len() as u64;
+            rep.bulk(n, n);
+            rep.count("multi_row_histories", n);
+            rep.count("multi_row_histories_diverged", viol.len() as u64);
+            for (hi, steps, pad, sig, e, o) in &viol {
+                rep.outcome(&format!("multi:{}", sig.rsplit('/').next().unwrap_or("")));
+                rep.violation("C11", "multi-row", sig, || multi_case_json(m, &m.hists[*hi], *steps, *pad), e, o);
+            }
+        }
     }
 
     fn replay(&self, ctx: &Ctx, case: &Value, rep: &mut Reporter) {
         std::env::set_var("RUST_BACKTRACE", "0");
-        let tys = types(true);
         let tsig = case["type"].as_str().unwrap_or("");
+        if case["mode"].as_str() == Some("multi") {
+            let (sig, ddl, blob): (&'static str, &'static str, bool) = match tsig {
+                "blob" => ("blob", "BLOB", true),
+                "varchar(30000)" => ("varchar(30000)", "VARCHAR(30000)", false),
+                _ => ("text", "TEXT", false),
+            };
+            let ins: Vec<usize> = case["ins"].as_array().map(|a| a.iter().map(|x| x.as_u64().unwrap_or(0) as usize).collect()).unwrap_or_default();
+            let upd: Vec<(usize, usize)> = case["upd"].as_array().map(|a| a.iter().map(|x| (x[0].as_u64().unwrap_or(0) as usize, x[1].as_u64().unwrap_or(0) as usize)).collect()).unwrap_or_default();
+            if ins.len() != 2 {
+                rep.note("replay: bad multi case");
+                return;
+            }
+            let m = MultiUnit { tysig: sig, ddl, blob, pk: case["pk"].as_bool().unwrap_or(true), param: case["path"].as_str() == Some("param"), hists: vec![Hist { align: case["align"].as_u64().unwrap_or(0) as u8, ins: [ins[0], ins[1]], upd }] };
+            let viol = run_multi(&ctx.scratch, &m, "replay_multi", case["pad_inserts_before"].as_u64().unwrap_or(0) as usize);
+            rep.bulk(1, 1);
+            for (_, _, _, sig, e, o) in &viol {
+                rep.violation("C11", "multi-row", sig, || case.clone(), e, o);
+            }
+            return;
+        }
+        let tys = types(true);
         let Some(ty) = tys.iter().find(|t| t.sig == tsig) else {
             rep.note("replay: unknown type");
             return;
@@ -1541,7 +1858,7 @@ impl Check for C11 {
         let u = Unit { ty, pk, param, update, cases };
         let all: BTreeSet<usize> = (0..u.cases.len()).collect();
         let batch = case["mode"].as_str() == Some("batch");
-        let r = run_unit(&ctx.scratch, &u, &all, "replay", false);
+        let r = run_unit(&ctx.scratch, &u, &all, "replay", batch && update);
         rep.bulk(u.cases.len() as u64 * 2, u.cases.len() as u64 * 2);
         if let Some(e) = &r.setup_err {
             rep.violation("C11", "setup", &format!("C11/{}/-/{}/{}/now/setup-error", u.ty.sig, path_name(u.param), if u.update { "update" } else { "insert" }), || case.clone(), "table can be created", e);
